@@ -44,6 +44,61 @@ COMPS = [".", "..", "...", "a", "aa", "b.c", "", ".hidden", "x#y", "..a", "a..",
          "longname-0123456789", "#", "a.c.c", "*"]
 
 
+# get_dir (path, -1) / stat (path, -1): directories of the fixture only (the mudlib root also holds the other
+# properties' files), listings and patterns
+GD1 = ["/d", "/d/", "/d/.", "/d/*", "/d/*.c", "/d/?.txt", "/d/f*", "/d/sub", "/d/sub/", "/d/sub/*", "/a/", "/a/a*", "/a/aa/",
+       "/a/*", "/d/nofile", "/d/no/deep/*", "/d/f.txt", "/../*", "/d/\\f.txt", "/d/*/", "/d//", "/d/x*", "/d/.*", "/d/??*",
+       "/d/*b*", "/a/a?", "/d/sub/.*"]
+EFUN1X = ["get_dir1", "stat1"]
+
+
+def pad(n, head="/d", tail="sub"):
+    """an absolute LPC path whose approved form (without the leading slash) is exactly n characters long and names
+    head/tail of the fixture: the padding are repeated slashes (a legal path; no component exceeds NAME_MAX)"""
+    k = n - (len(head) - 1) - len(tail)
+    return head + "/" * max(k, 1) + tail
+
+
+def long_cases():
+    """boundary sizes of the C path buffers: MAX_PATH_LEN = 1024 (get_dir), 1281 = sizeof temppath / newfrom / newto,
+    MAXFNAME = 256 (ed)"""
+    L = []
+    gd = []
+    for n in (1023, 1024, 1025, 1026, 1279, 1280, 1281, 1282, 1400):
+        for tail in ("sub", "sub/", "f.txt", "*", "nofile", "sub/.", "x/secret"):
+            gd.append(pad(n, "/d", tail))
+    L.append(("long-get_dir", ["fx get_dir " + br(p_) for p_ in gd]))
+    L.append(("long-get_dir1", ["fx get_dir1 " + br(p_) for p_ in gd]))
+    L.append(("long-stat1", ["fx stat1 " + br(p_) for p_ in gd[::3]]))
+    rn = []
+    for n in (1279, 1280, 1281, 1282, 1300, 2000):
+        rn.append((pad(n, "/d", "sub/"), "/d/new"))            # existing directory, trailing slash stripped
+        rn.append((pad(n, "/d", "sub//"), "/d/new"))
+        rn.append(("/" + "a" * (n - 1) + "/", "/d/new"))        # nothing exists: the copy happens all the same
+        rn.append((pad(n, "/d", "sub"), "/d/new"))              # no trailing slash: no copy
+    for n in (1270, 1274, 1275, 1276, 1280, 1281, 1300):
+        rn.append(("/d/f.txt", pad(n, "/d", "sub")))             # into a directory: newto = to + "/" + "f.txt"
+        rn.append(("/d/f.txt", pad(n, "/d", "sub/")))
+    for e in ("rename", "link", "cp"):
+        L.append(("long-" + e, ["fx %s %s %s" % (e, br(a), br(b)) for a, b in rn]))
+    one = []
+    for n in (255, 256, 1024, 1025, 1281, 3000):
+        one += [pad(n, "/d", "f.txt"), pad(n, "/d", "new")]
+    for e in ("read_file", "write_file", "rm", "mkdir", "file_size", "save_object", "restore_object", "tail"):
+        L.append(("long-" + e, ["fx %s %s" % (e, br(p_)) for p_ in one]))
+    es = []
+    for n in (253, 254, 255, 256, 257, 300):
+        f_ = pad(n, "/d", "f.txt")
+        o_ = pad(n, "/d", "out")
+        rel = pad(n - 2, "sub", "n")                              # relative: the master prepends "/d/"
+        es.append("es %s a:x,w,f,W,x" % br(f_))
+        es.append("es [/d/f.txt] a:x,w:%s,e:%s,r:%s,f:%s,W:%s,f,w,x" % (o_, o_, o_, o_, o_))
+        es.append("es [/d/f.txt] a:x,w:%s,r:%s,f:%s,f,w,Q" % (rel, rel, rel))
+        es.append("es %s w,a:y,w,x" % br(pad(n, "/d", "nofile")))
+    L.append(("long-ed", es))
+    return L
+
+
 def br(s):
     return "[" + s + "]"
 
@@ -124,6 +179,7 @@ class C15(Prop):
         if not m:
             raise X.TieBroken("const:INC_BUF_SIZE", "lib/lpc/lex.c no longer defines INC_BUF_SIZE")
         head = "/-- lib/lpc/lex.c: `#define INC_BUF_SIZE` -/\ndef incBufSize : Nat := %s\n\n" % m.group(1)
+        head += self.gen_buffers()
         try:
             res = c15_sites.analyze(E.REPO, bdir, E.include_flags(bdir))
         except c15_sites.SitesError as e:
@@ -137,8 +193,98 @@ class C15(Prop):
                               "C15 harness / model does not exercise them" % missing)
         return head + c15_sites.render(res)
 
+    def gen_buffers(self):
+        """sizes of the C path buffers and the limits they are guarded with, read from the working tree:
+        macros (`#define X <int>`), `char name[expr]` declarations inside the named function (expr = sum of
+        macros / integers) and the guard expressions themselves (the exact source text of the comparison must be
+        present in the function: a changed operator or operand breaks the tie, the search stage then looks for an
+        input at the boundary sizes)."""
+        import re
+
+        def src(rel):
+            try:
+                return open(os.path.join(E.REPO, rel)).read()
+            except OSError:
+                raise X.TieBroken("buffers:" + rel, "cannot read " + rel)
+
+        def macro(text, rel, name):
+            m = re.search(r"^#define\s+%s\s+(\d+)\b" % name, text, re.M)
+            if not m:
+                raise X.TieBroken("const:" + name, "%s no longer defines %s as an integer" % (rel, name))
+            return int(m.group(1))
+
+        def body(text, rel, fn):
+            m = re.search(r"\b%s\s*\([^();{}]*\)\s*\{" % fn, text)
+            if not m:
+                raise X.TieBroken("buffers:" + fn, "function %s not found in %s" % (fn, rel))
+            e = re.search(r"^\}", text[m.end():], re.M)
+            return text[m.end(): m.end() + (e.start() if e else 0)]
+
+        def size(btext, fn, var, env):
+            ms = re.findall(r"\bchar\s+%s\s*\[([^\]]+)\]" % var, btext)
+            if not ms:
+                raise X.TieBroken("buffers:%s.%s" % (fn, var), "declaration `char %s[..]` not found in %s" % (var, fn))
+            vals = set()
+            for ex in ms:
+                tot = 0
+                for t in ex.split("+"):
+                    t = t.strip()
+                    if t.isdigit():
+                        tot += int(t)
+                    elif t in env:
+                        tot += env[t]
+                    else:
+                        raise X.TieBroken("buffers:%s.%s" % (fn, var), "cannot evaluate the size `%s`" % ex)
+                vals.add(tot)
+            if len(vals) != 1:
+                raise X.TieBroken("buffers:%s.%s" % (fn, var), "several declarations with different sizes %s" % sorted(vals))
+            return vals.pop()
+
+        fu = src("lib/efuns/file_utils.c")
+        edc = src("lib/efuns/ed.c")
+        edh = src("lib/efuns/ed.h")
+        env = {"MAX_PATH_LEN": macro(fu, "file_utils.c", "MAX_PATH_LEN"),
+               "MAX_FNAME_SIZE": macro(fu, "file_utils.c", "MAX_FNAME_SIZE"),
+               "MAXFNAME": macro(edh, "ed.h", "MAXFNAME")}
+        b_gd, b_rn, b_cp, b_fn, b_es = (body(fu, "file_utils.c", "get_dir"), body(fu, "file_utils.c", "do_rename"),
+                                        body(fu, "file_utils.c", "copy_file"), body(edc, "ed.c", "getfn"),
+                                        body(edc, "ed.c", "ed_start"))
+        defs = [("maxPathLen", env["MAX_PATH_LEN"], "file_utils.c: `#define MAX_PATH_LEN`"),
+                ("maxFnameSize", env["MAX_FNAME_SIZE"], "file_utils.c: `#define MAX_FNAME_SIZE`"),
+                ("edMaxFname", env["MAXFNAME"], "ed.h: `#define MAXFNAME` (= `sizeof file` of getfn, `sizeof P_FNAME`)"),
+                ("getDirTemppathSize", size(b_gd, "get_dir", "temppath", env), "get_dir: `char temppath[..]`"),
+                ("getDirRegexppathSize", size(b_gd, "get_dir", "regexppath", env), "get_dir: `char regexppath[..]`"),
+                ("renameNewfromSize", size(b_rn, "do_rename", "newfrom", env), "do_rename: `char newfrom[..]`"),
+                ("renameNewtoSize", size(b_rn, "do_rename", "newto", env), "do_rename: `char newto[..]`"),
+                ("cpNewtoSize", size(b_cp, "copy_file", "newto", env), "copy_file: `char newto[..]`"),
+                ("edFileSize", size(b_fn, "getfn", "file", env), "getfn: `static char file[..]`")]
+        # the guards, as source text (whitespace-insensitive); name -> (function body, text)
+        guards = [("get_dir", b_gd, "strlen (path) > MAX_PATH_LEN"),
+                  ("get_dir", b_gd, "strncpy (temppath, path, MAX_FNAME_SIZE + MAX_PATH_LEN + 1)"),
+                  ("get_dir", b_gd, 'if (strcmp (de->d_name, ".") == 0 || strcmp (de->d_name, "..") == 0)'),
+                  ("do_rename", b_rn, "n >= (ptrdiff_t) sizeof (newfrom)"),
+                  ("do_rename", b_rn, 'snprintf (newto, sizeof(newto), "%s/%s", to, cp) >= (int)sizeof(newto)'),
+                  ("copy_file", b_cp, 'snprintf (newto, sizeof (newto), "%s/%s", to, cp) >= (int) sizeof (newto)'),
+                  ("getfn", b_fn, "strlen (P_FNAME) + 1 >= MAXFNAME"),
+                  ("getfn", b_fn, "cp >= file + MAXFNAME - 1"),
+                  ("getfn", b_fn, "strlen (file2) >= MAXFNAME"),
+                  ("getfn", b_fn, "strncpy (file, ret->u.string, sizeof file - 1)"),
+                  ("ed_start", b_es, "strncpy (P_FNAME, file_arg, MAXFNAME - 1)")]
+        squeeze = lambda t: re.sub(r"\s+", "", t)
+        rows = []
+        for fn, btext, g in guards:
+            n = squeeze(btext).count(squeeze(g))
+            rows.append((fn, g, n))
+        out = "".join("/-- %s -/\ndef %s : Nat := %d\n\n" % (doc, nm, v) for nm, v, doc in defs)
+        out += ("/-- length guards of the path buffers found in the source (function, source text, occurrences) -/\n"
+                "def lengthGuards : List (String × String × Nat) := [\n" +
+                ",\n".join("  (%s, %s, %d)" % ('"%s"' % f,
+                                                '"%s"' % g.replace("\\", "\\\\").replace('"', '\\"'), n)
+                           for f, g, n in rows) + "]\n\n")
+        return out
+
     def exercised(self):
-        return EFUN1 + EFUN2 + EFUNS + ["ed"]
+        return EFUN1 + EFUN2 + EFUNS + ["ed"]      # get_dir1 / stat1 are f_get_dir / f_stat with the flag -1
 
     def extra_checks(self, ctx, tier, rng):
         """run-time side of `inventory_covers_efuns`: each efun of the surface was really called in this run and its
@@ -223,6 +369,14 @@ class C15(Prop):
             mk("ed-%s" % pol, [pl(pol)] + ["fx ed %s %s" % (br(a), br(b)) for a, b in PED])
             for e in EFUN2:
                 mk("%s-%s" % (e, pol), [pl(pol)] + ["fx %s %s %s" % (e, br(a), br(b)) for a, b in pairs])
+        for pol in POL_FULL + POL_FEW + ["ro", "wo", "raise", "odd=[neg]", "ABSENT"]:
+            for e in EFUN1X:
+                mk("%s-%s" % (e, pol), [pl(pol)] + ["fx %s %s" % (e, br(p)) for p in GD1])
+        for name, lines in long_cases():
+            for pol in ["allow", "echo", "fixed=" + br(pad(300, "/d", "f.txt")), "fixed=" + br(pad(1300, "/d", "sub/")), "ABSENT"]:
+                if pol.startswith("fixed") and name not in ("long-ed", "long-get_dir1", "long-rename", "long-cp"):
+                    continue
+                mk("%s-%s" % (name, pol[:12]), [pl(pol)] + (lines if pol in ("allow", "echo") else lines[::2]))
         mk("include", ["inc %s %s" % (br(b), br(n)) for b in INC_BASES for n in INC_NAMES])
         for i, n in enumerate(INH_NAMES):
             mk("inherit-%d" % i, ["inh [t/y.c] " + br(n)])
@@ -302,7 +456,22 @@ class C15(Prop):
                 lines.append(pl(pol))
                 for _ in range(12):
                     j = rng.below(10)
-                    if j < 6:
+                    if j < 2:
+                        pth = rng.choice(GD1) if rng.chance(2, 3) else "/" + "/".join(
+                            rng.choice(["d", "a", "aa", "sub", "*", "?", "f*", "*.c", "", "."]) for _ in range(rng.range(1, 3)))
+                        if pth.strip("/.*?") == "":
+                            pth = "/d/*"
+                        lines.append("fx %s %s" % (rng.choice(EFUN1X), br(pth)))
+                    elif j < 3 and rng.chance(1, 2):
+                        n_ = rng.choice([255, 256, 1024, 1025, 1280, 1281, rng.range(200, 2500)])
+                        pth = pad(n_, rng.choice(["/d", "/a", "/d/sub"]), rng.choice(["sub", "sub/", "f.txt", "new", "*", "a/"]))
+                        if rng.chance(1, 2):
+                            lines.append("fx %s %s" % (rng.choice(EFUN1 + EFUN1X), br(pth)))
+                        else:
+                            q_ = self.rand_sys_path(rng)
+                            a_, b_ = (pth, q_) if rng.chance(1, 2) else (q_, pth)
+                            lines.append("fx %s %s %s" % (rng.choice(EFUN2), br(a_), br(b_)))
+                    elif j < 6:
                         lines.append("fx %s %s" % (rng.choice(EFUN1), br(self.rand_sys_path(rng))))
                     elif j < 9:
                         lines.append("fx %s %s %s" % (rng.choice(EFUN2 + ["ed"]), br(self.rand_sys_path(rng)), br(self.rand_sys_path(rng))))
@@ -324,6 +493,8 @@ class C15(Prop):
                             cs.append("a:t%d" % rng.below(9))
                         elif c in ("x", "q", "Q") or rng.chance(1, 2):
                             cs.append(c)
+                        elif rng.chance(1, 8):
+                            cs.append(c + ":" + pad(rng.choice([254, 255, 256, 257, rng.range(200, 400)]), "/d", rng.choice(["out", "f.txt", "sub/n"])))
                         else:
                             cs.append(c + ":" + rng.choice(names))
                     lines.append("es %s %s" % (br(rng.choice(names)), ",".join(cs)))
